@@ -1,5 +1,5 @@
 """C04 — quoted expansions arrive byte-exact: never re-split, re-globbed or re-parsed."""
-import itertools
+import itertools, re
 from vlib import core
 from props import c04_lib as X
 
@@ -308,6 +308,9 @@ def classify_bash_diff(c, cr, b):
     v = c.value if isinstance(c.value, str) else ""
     if any(ch not in WS for ch in ifs) and any(ch in v for ch in ifs if ch not in WS):
         return "KF-C05-nonws-ifs-empty-fields"
+    # bash takes an (unterminated) extglob opener for a pattern even with extglob off: failglob / nullglob fire
+    if ("F" in c.opts or "n" in c.opts) and "e" not in c.opts and "f" not in c.opts and re.search(r"[+@!?*]\(", v):
+        return "KF-C04-extglob-opener-failglob"
     return None
 
 
